@@ -124,6 +124,7 @@ func (c *fRegistryImpl) dispatch(opid uint64, frame []byte) error {
 	}
 	c.mu.RUnlock()
 
+	verifYield("dispatch.beforeSend", opid)
 	resultC <- frame
 	return nil
 }
